@@ -68,6 +68,16 @@ impl ParsedTestCase {
                 }));
             }
         }
+        // The header column `<name>_out` carries the expected values of the bidirectional signal `<name>`:
+        // an input-capable signal with that very name would claim the same column
+        for sig in signals {
+            if sig.is_bidirectional() {
+                let out_name = sig.name.clone() + "_out";
+                if signals.iter().any(|s| s.is_input() && s.name == out_name) {
+                    return Err(SignalError(SignalErrorKind::DuplicateSignal { signal: out_name }));
+                }
+            }
+        }
         for (virt, span) in &self.virtual_signals {
             if names.contains(&virt.name) {
                 return Err(SignalError(SignalErrorKind::SignalIsVirtual {
